@@ -35,6 +35,8 @@ def json_loads(ip, st, args, kwargs):
 @LM.register_external("json.dumps")
 def json_dumps(ip, st, args, kwargs):
     d = args[0]
+    if set(kwargs) - {"indent", "sort_keys"}:      # layout only: the text is an arbitrary string that is / is not a well-formed reply
+        raise Unsupported("json.dumps(%s) is not modelled" % ", ".join(sorted(kwargs)))
     if not isinstance(d, PyDict):
         raise Unsupported("json.dumps of %r" % (d,))
     cell = st.cell(d.oid)
